@@ -3,7 +3,7 @@ import shapecheck
 
 PROP = 'C04'
 VARIANTS = ['asan-direct']
-RULE = ('Generators: (a) fz_shape libFuzzer campaign (16 forked workers, table-aware mutator) over synthesised + minified shipped fonts, header bytes select face options/table source/encoding/dir 0..7/ppm/features/language/NUL-termination, text drawn from the face\'s own mapped code points plus unmapped, astral and ill-formed units; (b) Hypothesis "wild" GDL-lite programs (backward cursor, insert-heavy, attach chains and re-attachment, put_copy/assoc in positioning passes, division, arbitrary slot attributes, reversed passes, NSM/mirror/pseudo glyphs, justification levels) x 1-4 probes; (c) shipped fonts x cmap-guided texts x 3 encodings x dir 0..7. Oracle (seginv.h): parent chains terminate within n steps inside the segment; an attached slot occurs exactly once in its parent\'s child chain and every member names that parent; bases form a single sibling chain containing each base once. Non-trivial: >=1 attached slot (sub-class: depth >= 2). Distinct by input hash / case JSON.')
+RULE = ('Generators: (a) fz_shape libFuzzer campaign (16 forked workers, table-aware mutator) over synthesised + minified shipped fonts, header bytes select face options/table source/encoding/dir 0..7/ppm/features/language/NUL-termination, text drawn from the face\'s own mapped code points plus unmapped, astral and ill-formed units; (b) Hypothesis "wild" GDL-lite programs (backward cursor, insert-heavy, attach chains and re-attachment, put_copy/assoc in positioning passes, substitution through arbitrary class pairs, division, arbitrary slot attributes, reversed passes, NSM/mirror/pseudo glyphs, unreadable glyphs, linear and bisected class tables, justification levels, line-end contextuals; for C04 half of them attachment-stress programs over a 3-4 glyph alphabet) x 1-4 probes; (c) shipped fonts x cmap-guided texts (1 in 4 with raw ill-formed code-unit fragments) x 3 encodings x dir 0..7 x font NULL / unhinted / hinted. Oracle (seginv.h): parent chains terminate within n steps inside the segment; an attached slot occurs exactly once in its parent\'s child chain and every member names that parent; bases form a single sibling chain containing each base once. Non-trivial: >=1 attached slot (sub-class: depth >= 2). Distinct by input hash / case JSON.')
 ASSUME = ['predicates validated on 30k segments of the shipped fonts during design (probe)']
 
 
